@@ -19,6 +19,7 @@
 //! Like commit metadata and more.
 
 use std::collections::HashMap;
+use std::collections::HashSet;
 use std::collections::hash_map;
 use std::iter;
 use std::ops::Range;
@@ -202,7 +203,7 @@ impl FileAnnotator {
                 })
                 .collect(),
             commit_source_map: HashMap::from([(starting_commit_id.clone(), source)]),
-            num_unresolved_roots: 0,
+            unresolved_roots: HashSet::new(),
         };
         Self {
             file_path: file_path.to_owned(),
@@ -247,8 +248,9 @@ struct AnnotationState {
     original_line_map: OriginalLineMap,
     /// Commits to file line mappings and contents.
     commit_source_map: HashMap<CommitId, Source>,
-    /// Number of unresolved root commits in `commit_source_map`.
-    num_unresolved_roots: usize,
+    /// Unresolved root commits in `commit_source_map`. An omitted parent can
+    /// be reached through several missing edges, but it's a single entry.
+    unresolved_roots: HashSet<CommitId>,
 }
 
 /// Line mapping and file content at a certain commit.
@@ -313,11 +315,11 @@ async fn process_commits(
         .union(&domain.intersection(&heads.ancestors()).filtered(predicate))
         .evaluate(repo)?;
 
-    state.num_unresolved_roots = 0;
+    state.unresolved_roots.clear();
     let mut nodes = revset.stream_graph();
     while let Some((commit_id, edge_list)) = nodes.try_next().await? {
         process_commit(repo, file_name, state, &commit_id, &edge_list).await?;
-        if state.commit_source_map.len() == state.num_unresolved_roots {
+        if state.commit_source_map.len() == state.unresolved_roots.len() {
             // No more lines to propagate to ancestors.
             break;
         }
@@ -393,7 +395,7 @@ async fn process_commit(
                     line_number: parent_line_number,
                 });
             }
-            state.num_unresolved_roots += 1;
+            state.unresolved_roots.insert(parent_commit_id.clone());
         }
     }
 
